@@ -390,6 +390,12 @@ func (w *world) runCase(clustered bool, runs []Run, trace *[]Event, infra *[]str
 				*infra = append(*infra, "table missing in catalogue: "+t)
 				continue
 			}
+			if stale, why := w.revertStale(conns, runs, g.Kind, t); stale && ((g.Kind == "ttl" && !matches(o.TTL, cfg, t)) ||
+				(g.Kind == "policy" && cfg.Policy != "" && strings.Trim(o.Settings["storage_policy"], "'") != cfg.Policy)) {
+				res.Violation = fmt.Sprintf("after runs %v (configs %v) table %s keeps the %s of the interrupted configuration: %s", runs, res.CfgIDs, t, g.Kind, why)
+				res.Signature = "revert-after-interrupted-change|" + g.Kind
+				return res
+			}
 			if g.Kind == "ttl" && !matches(o.TTL, cfg, t) {
 				res.Violation = fmt.Sprintf("after runs %v (configs %v) table %s has TTL %q, which is not the configured retention (days=%d tiers=%v, tier moves clamped to >= 1 %s)",
 					runs, res.CfgIDs, t, o.TTL, cfg.Days, cfg.Tiers, g.Clamp)
@@ -417,6 +423,52 @@ func (w *world) runCase(clustered bool, runs []Run, trace *[]Event, infra *[]str
 		}
 	}
 	return res
+}
+
+// revertStale recognises the one history in which the marker and the ALTERs are known to diverge: the
+// configuration of the final runs was already recorded by an earlier completed run, a later run with a DIFFERENT
+// configuration altered table t and was interrupted before it recorded its value, and the configuration was then
+// reverted.  The final runs read the old marker, find it equal and skip the group.
+func (w *world) revertStale(conns []*fakeconn.Conn, runs []Run, kind string, t string) (bool, string) {
+	n := len(runs)
+	final := runs[n-1].Cfg
+	recorded := false
+	for i := 0; i < n-2; i++ {
+		if runs[i].Cfg == final && runs[i].Window == "" {
+			recorded = true
+			continue
+		}
+		if !recorded || runs[i].Cfg == final {
+			continue
+		}
+		cfgI, cfgF := w.all[runs[i].Cfg], w.all[final]
+		if (kind == "ttl" && cfgI.ID == cfgF.ID) || (kind == "policy" && cfgI.Policy == cfgF.Policy) {
+			continue
+		}
+		// was t altered (statement executed) by run i, with no later successful Put in that run?
+		altered, putAfter := false, false
+		for j := range conns[i].Log {
+			le := &conns[i].Log[j]
+			executed := le.Fault != "fail" && le.Fault != "crash-before" && le.Err == ""
+			isKind := (kind == "ttl" && strings.Contains(le.SQL, "MODIFY TTL")) || (kind == "policy" && strings.Contains(le.SQL, "storage_policy"))
+			if le.Op.Kind == "Alter" && le.Op.Obj == t && isKind && executed {
+				altered, putAfter = true, false
+			}
+			if le.Op.Kind == "Insert" && altered && executed {
+				putAfter = true
+			}
+		}
+		later := false
+		for k := i + 1; k < n-2; k++ {
+			if runs[k].Cfg != final {
+				later = true
+			}
+		}
+		if altered && !putAfter && !later {
+			return true, fmt.Sprintf("run %d (configuration %s) altered it and was interrupted before putSetting; the marker still holds the value recorded for %s, so the run after the revert skips the group", i+1, cfgI.ID+"/"+cfgI.Policy, cfgF.ID+"/"+cfgF.Policy)
+		}
+	}
+	return false, ""
 }
 
 func toU(v any) uint64 {
@@ -503,12 +555,27 @@ func main() {
 						cases = append(cases, w.runCase(clustered, []Run{{Cfg: ci, N: n, Window: win}, {Cfg: ci}, {Cfg: ci}}, &trace, &infra))
 					}
 				}
+				if *full || !clustered {
+					// revert after an interrupted change, every statement of the other configuration's run as fault point
+					cj := (ci + 1) % ncfg
+					dbj := freshDB(clustered)
+					cjc := fakeconn.NewConn(dbj)
+					runRotate(cjc, w.all[ci], clustered)
+					cjc2 := fakeconn.NewConn(dbj)
+					runRotate(cjc2, w.all[cj], clustered)
+					for n := 1; n <= len(cjc2.Log); n++ {
+						cases = append(cases, w.runCase(clustered, []Run{{Cfg: ci}, {Cfg: cj, N: n, Window: "fail"}, {Cfg: ci}, {Cfg: ci}}, &trace, &infra))
+					}
+				}
 				// configuration changes: complete run with another config first, then (faulty) run with this one
 				for k := 0; k < 6; k++ {
 					cj := rnd.Intn(ncfg)
 					n := 1 + rnd.Intn(base)
 					win := []string{"fail", "crash-before", "crash-after"}[rnd.Intn(3)]
 					cases = append(cases, w.runCase(clustered, []Run{{Cfg: cj}, {Cfg: ci, N: n, Window: win}, {Cfg: ci}, {Cfg: ci}}, &trace, &infra))
+					// revert: complete with this config, interrupted change to another one, back to this config
+					n2 := 1 + rnd.Intn(base)
+					cases = append(cases, w.runCase(clustered, []Run{{Cfg: ci}, {Cfg: cj, N: n2, Window: win}, {Cfg: ci}, {Cfg: ci}}, &trace, &infra))
 					ck := rnd.Intn(ncfg)
 					cases = append(cases, w.runCase(clustered, []Run{{Cfg: cj, N: n, Window: win}, {Cfg: ck}, {Cfg: ci}, {Cfg: ci}}, &trace, &infra))
 				}
